@@ -257,12 +257,15 @@ func (vLogTap) Write(p []byte) (int, error) {
 	return len(p), nil
 }
 
+// vDumpSkip: names that were in the directory before the daemon started (stream daemon), reported separately
+var vDumpSkip map[string]bool
+
 func vDumpDir(w *bufio.Writer, dir, label string) {
 	ents, _ := os.ReadDir(dir)
 	var names []string
 	temps := 0
 	for _, e := range ents {
-		if e.IsDir() {
+		if e.IsDir() || vDumpSkip[e.Name()] {
 			continue
 		}
 		if strings.HasSuffix(e.Name(), ".cptv") {
